@@ -270,11 +270,33 @@ CLAIMED["C18"] = dict(
     technique="Lean 4 verified checker over translated disassembly + protocol proof (racing binds) + threaded correspondence",
     engine="X86Abs", ref="4.2, 5 C18")
 
-REASON_TODO = ("C14: the deciding theorem (a verified 'every vector register and stack slot the function dirtied is scrubbed "
-               "at every exit' certificate checker over the translated AES functions, engine Scrub in the style of X86Abs) is not "
-               "finished; without it only the dynamic capture run exists (tools/check.py C14: zmm0-31 + 64 KiB dead stack after every "
-               "AES call scanned for key material; clean after fixes F8/F9/F13/F14), which is correspondence and may not stand in "
-               "for a proof. See DESIGN.md 10.6.")
+CLAIMED["C14"] = dict(
+    text="Proof (Lean 4): engine Scrub, a certificate checker in the style of X86Abs over a taint-instrumented small-step "
+         "semantics (ghost taint per vector-register part [bits 0-127 / 128-511], per GPR/flags/opmask and per stack byte; "
+         "sources = loads through the key-material arguments of the entry point's signature; AES/PCLMUL/xor... propagate), "
+         "proved sound once (checkScrub_sound, 1340 lines): if checkScrub accepts a function then on every path from its "
+         "entry, at every exit (ret, tail jump, dispatch stub) every vector-register part is the caller's value or zero "
+         "(rule Z) / carries no taint (rule T), and no stack byte below the caller's frame is tainted. T-route: "
+         "tools/gen_scrub.py regenerates records + certificates for all 354 functions of the 68 AES objects of the "
+         "current build (461k instructions) and the kernel re-evaluates checkSObj per object (decide +kernel); "
+         "Props/C14.lean lifts this to c14 / c14_Z / c14_no_declass / c14_tail. 348 functions pass (274 under the "
+         "strictest rule Z; GCM bulk functions under rules that declassify aesenclast / pclmulqdq results = ciphertext "
+         "and GHASH of ciphertext, fixed per entry point by a signature table); every function must pass under the "
+         "rule recorded for the unchanged tree (tools/scrub_expected.json) or a stricter one. Correspondence and "
+         "witnesses: harness capture of zmm0-31, k0-7 and 64 KiB of dead stack right after every AES call, scanned for "
+         "raw key, both schedules, GHASH key powers and the encrypted tweak; tools/vecform.py validates the vector "
+         "write-sets / zeroing idioms of the instruction table by isolated execution.",
+    note="Trusted: Lean kernel + standard axioms; objdump, the two instruction tables (validated dynamically), the "
+         "signature table (what is key material, where declassification is meaningful), the frame assumption of "
+         "X86Abs. NOT covered by the proof: 6 functions (_aes_gcm_pre_{128,256}, legacy aliases, isal_ wrappers) - a "
+         "local schedule array passed to the key expansion and cleared by a volatile byte loop is beyond a "
+         "constant-offset certificate domain; they are covered by the dynamic capture only (this is where F9 was found). "
+         "GPRs are outside the property (sse/avx XTS leave E(k2,tweak)-derived bits in rax: reported, not a violation). "
+         "F8, F9, F13, F14 found by the dynamic capture and fixed; the static check accepts the repaired tree.",
+    technique="Lean 4 verified taint/scrub certificate checker over translated disassembly (decide +kernel per object) + capture correspondence",
+    engine="Scrub", ref="4.2, 5 C14, 10.6")
+
+REASON_TODO = "(none)"
 
 props = [json.loads(l) for l in open(os.path.join(V, "properties.jsonl"))]
 checks, na = [], []
@@ -322,6 +344,8 @@ m = {
          "kind_free_text": "mini-x86 interpreter + exact symbolic execution + verified path checker; tools/gen_dispatch.py translator; harness/drv_dispatch.c under the hook"},
         {"name": "AES", "path": "lean/IsalVerif/Spec/Aes.lean", "serves_properties": ["C02", "C03", "C04", "C07"],
          "kind_free_text": "executable standards (FIPS-197, SP 800-38D, IEEE 1619, SP 800-38A) + GcmStream context model; harness/drv_aes.c"},
+        {"name": "Scrub", "path": "lean/IsalVerif/Impl/Scrub.lean", "serves_properties": ["C14"],
+         "kind_free_text": "taint-instrumented semantics + scrub certificate checker proved sound (Lemmas/ScrubSound.lean); tools/gen_scrub.py translator over the AES objects; tools/vecform.py table validation; capture mode of harness/tramp.asm + sens.h"},
         {"name": "X86Abs", "path": "lean/IsalVerif/Impl/X86Abs.lean", "serves_properties": ["C19", "C18"],
          "kind_free_text": "abstract x86-64 records + certificate checker proved sound (Lemmas/X86AbsSound.lean); tools/gen_x86abs.py translator over every object; Impl/BindRace.lean (racing dispatch binds); harness/drv_abi.c, harness/drv_threads.c"},
         {"name": "Wrapper", "path": "lean/IsalVerif/Impl/Wrapper.lean", "serves_properties": ["C13", "C16"],
